@@ -312,6 +312,8 @@ def _frame_obligations(m, ctx, contract, key, env, model_vars):
             f = _mangle(f, env.cls.name)
         bases.setdefault(f, []).append(b.t)
     for (owner, f), new in list(m.heap.arrays.items()):
+        if owner == "object":
+            continue  # engine-internal class tags of objects created by the function
         old = env.old_heap.arrays.get((owner, f))
         if old is None:
             _, ty = m.field(owner, f)
